@@ -200,3 +200,41 @@ class SFCalculate(_ReservoirBase):
             "never_above_bottom_hole_temperature": Implies(hot, ForAll(0, N, lambda i: T[i] <= R.Trock.value)),
             "never_rises": Implies(hot, ForAll(0, N - 1, lambda i: T[i + 1] <= T[i])),
         }
+
+
+# ---------------------------------------------------------------------------------------------------------------------
+class _LaplaceReservoir(_ReservoirBase):
+    """multiple-parallel-fractures (model 1) and linear-heat-sweep (model 2): only 'the history starts at bottom-hole
+    temperature' (and has one value per time point) - the numerically inverted Laplace solution itself is an
+    uninterpreted value per time point (mpmath.invertlaplace, A3) and the monotonicity clauses are, as the property's
+    quantifier says, not claimed for these models"""
+    property_ids = ("C05",)
+    may_raise = True
+    assumptions = ("C05 models 1-2: mpmath.invertlaplace is an uninterpreted function of the non-dimensional time (A3); an "
+                   "exception inside it ends the run (the code's own sys.exit())",)
+
+    def configs(self):
+        return [("segments=1", {"_numseg": 1})]
+
+    def requires(self, s):
+        return self.walk_requires(s)
+
+    loop_invariants = {1: lambda s, i, W: {"one_value_per_earlier_time_point": Len(s.Twnd) == i - 1}}
+
+    def ensures(self, s, r):
+        R = s.self
+        T = R.Tresoutput.value
+        return {"history_starts_at_bottom_hole_temperature": T[0] == R.Trock.value,
+                "one_value_per_time_point": Len(T) == Len(R.timevector.value)}
+
+
+@contract
+class MPFCalculate(_LaplaceReservoir):
+    key = "geophires_x/MPFReservoir.py::MPFReservoir.Calculate"
+    reservoir_model = 1
+
+
+@contract
+class LHSCalculate(_LaplaceReservoir):
+    key = "geophires_x/LHSReservoir.py::LHSReservoir.Calculate"
+    reservoir_model = 2
